@@ -94,6 +94,11 @@ def rand_scenario(
     p_abort_flag=0.0,
     slow_hooks=False,
     exotic_callables=False,
+    p_strategy_objects=0.0,
+    rf_time=False,
+    p_via_config=0.0,
+    p_exc_same=0.0,
+    p_attempt_timeout=0.0,
 ):
     n = rng.randint(*max_attempts)
     nout = n + 1
@@ -123,6 +128,11 @@ def rand_scenario(
         breaker=breaker,
         operation=rng.choice([None, "opname"]),
     )
+    if p_attempt_timeout and rng.random() < p_attempt_timeout:
+        cfg["attempt_timeout"] = 30.0  # configured but never allowed to fire (that would depend on real time)
+    if p_strategy_objects and rng.random() < p_strategy_objects:
+        cand = [x for x in (["default"] if default else []) + cs if x not in legacy]
+        cfg["strategy_objects"] = [x for x in cand if rng.random() < 0.7]
     place = default_place()
     has_handler = rng.random() < p_handler
     if has_handler:
@@ -143,6 +153,12 @@ def rand_scenario(
             for i in range(nout - 1):
                 if outs[i][0] == "ok":
                     outs[i] = ["exc", rng.choice(RETRYABLE), None]
+        if p_exc_same and rng.random() < p_exc_same:
+            # a client that re-raises one cached exception instance on consecutive attempts
+            k_same = rng.choice(RETRYABLE)
+            j0 = rng.randrange(max(1, nout - 1))
+            for j in range(j0, min(nout, j0 + rng.randint(2, 3))):
+                outs[j] = ["exc_same", k_same, None]
         handler = None
         if has_handler:
             pool = ["sleep", "sleep", "sleep", "defer", "abort"]
@@ -167,6 +183,8 @@ def rand_scenario(
         calls[-1]["abort_after_op"] = extra_abort
         if extra_abort is not None:
             calls[-1]["abort_at"] = None
+        if rf_time and cfg.get("strategy_objects"):
+            calls[-1]["rf_dur"] = [rng.choice([0.0, 0.0, G, 0.25, 1.0]) for _ in range(nout)]
         if slow_hooks:
             calls[-1]["handler_dur"] = [rng.choice([0.0, 0.0, G, 0.25]) for _ in range(nout)]
             calls[-1]["bs_dur"] = [rng.choice([0.0, 0.0, G, 0.25]) for _ in range(nout)]
@@ -176,6 +194,7 @@ def rand_scenario(
         "bs_kind": rng.choice(["sync", "async", "lambda"] if exotic_callables else ["sync", "async"]),
         "sleeper_kind": rng.choice(["async", "sync", "lambda", "callable"] if exotic_callables else ["async", "async", "sync"]),
         "timeline": rng.choice([False, True, "obj"]),
+        "via_config": bool(p_via_config and rng.random() < p_via_config),
         "poll": rng.random() < 0.15,
         "calls": calls,
         "fault": None,
@@ -198,7 +217,7 @@ def rand_breaker(rng):
         trip = sorted(ct)
     window, recovery = rng.choice([(1.0, 5.0), (10.0, 5.0), (5.0, 5.0), (2.0, 1.0)])
     pre = []
-    init = rng.choice(["closed", "closed", "near", "open", "expired", "halfopen"])
+    init = rng.choice(["closed", "closed", "near", "open", "expired", "halfopen", "probing"])
     th = rng.randint(1, 3)
     k0 = trip[0]
     if init == "near":
@@ -207,6 +226,9 @@ def rand_breaker(rng):
         pre = [["fail", k0]] * th
     elif init == "expired":
         pre = [["fail", k0]] * th + [["adv", recovery]]
+    elif init == "probing":
+        # half-open with another caller's probe still in flight: every call through the policy is rejected in state half_open
+        pre = [["fail", k0]] * th + [["adv", recovery + G], ["allow"]]
     elif init == "halfopen":
         pre = [["fail", k0]] * th + [["adv", recovery], ["allow"], ["success"]] if rng.random() < 0.3 else [["fail", k0]] * th + [["adv", recovery + G]]
     return {
